@@ -1,9 +1,9 @@
 """
 C19 — cell reduction recovers the same crystal from any supercell description.
 
-Explorer E1: 13 primitive crystals x ALL Hermite-normal-form supercells of determinant 2-3 (quick) / 2-6
+Explorer E1: 14 primitive crystals (12 of the catalogue + two spin-ordered ones) x ALL Hermite-normal-form supercells of determinant 2-3 (quick) / 2-6
 (thorough) x 3 unimodular re-bases (one left-handed) x atom orders (reversal, all cyclic shifts, all 6 orders of
-three-atom lists) x single-coordinate noise +-3e-10.
+three-atom lists) x single-coordinate noise (+-3e-10, +4e-9).
 Every description is written down from the definition by R-geom (no package code) and handed to the real
 constructor with reduction enabled; the result is compared with the primitive description.
 """
@@ -18,25 +18,39 @@ PID = 'C19'
 ENGINE = 'E1'
 TECHNIQUE = 'exhaustive enumeration of supercell re-descriptions (all HNF matrices of the stated determinants) through the real constructor'
 RULE = ('case = (crystal, determinant, chunk of HNF matrices); per HNF: all atom orders of the alphabet on the plain description, 3 orders on the two other re-bases, and every '
-        'single-coordinate noise pattern (+-3e-10 on one coordinate of one atom) on the plain description. '
+        'single-coordinate noise pattern (+-3e-10 or +4e-9 on one coordinate of one atom) on the plain description. '
         'nontrivial = descriptions whose reduction really had to remove a translation (all of them: det >= 2) and whose '
         'input differs from the plain HNF description (re-based, re-ordered or noisy)')
 LEVEL_TEXT = 'exhaustive over all HNF supercells of the stated determinants and the stated re-description alphabet'
-LEVEL_NOTE = 'noise amplitude is one fixed value below the 1e-8 threshold; primitive crystals are 13 fixed ones'
+LEVEL_NOTE = 'noise amplitudes are two fixed values below the 1e-8 threshold; primitive crystals are 14 fixed ones'
 ASSUMPTIONS = [
     'Crystal.genBZG memoised per distinct lattice (see C18)',
-    'the primitive description is the catalogue crystal as the package itself reduces it (its |G| is the reference order)',
+    'the supercells are built from the primitive crystal object (its lattice and basis); the reference atom counts and group '
+    'orders are the fixed table EXPECT (space-group knowledge, cross-checked with the brute-force group), not package output',
     'additional oracle same-lattice: the reduced lattice must generate the same point lattice as the primitive one '
     '(implied by "recovers the same crystal"; reported under its own oracle name)',
 ]
 
-CRYSTALS = ['FCC', 'BCC', 'HCP', 'DIAMOND', 'OMEGA', 'B2AB', 'WURTZ2', 'P1', 'RHOM', 'HONEY', 'RECTM', 'SQ2MM', 'AFM']
+CRYSTALS = ['FCC', 'BCC', 'HCP', 'DIAMOND', 'OMEGA', 'B2AB', 'WURTZ2', 'P1', 'RHOM', 'HONEY', 'RECTM', 'SQ2MM', 'AFM', 'UUDD']
 NOISE = 3e-10
+# noise letters (index -> signed amplitude): +-3e-10 (DESIGN 5.1) and one larger value that is still below the 1e-8
+# threshold but above threshold/det, which the threshold rescaling inside reduce() has to absorb
+NOISES = [3e-10, -3e-10, 4e-9]
+# independent reference for the primitive descriptions: atoms per species and the order of the space group modulo
+# lattice translations (Fm-3m, Im-3m, P6_3/mmc, Fd-3m, P6/mmm, Pm-3m, P6_3mc, P-1, R-3m, p6mm, p2mm, p4mm; the two
+# spin crystals: Pm-3m and Pmmm doubled by the translation that flips all spins).  Fixed numbers, so that a defect of
+# the reduction that also hits the primitive description cannot hide in the comparison.
+EXPECT = {'FCC': ([1], 48), 'BCC': ([1], 48), 'HCP': ([2], 24), 'DIAMOND': ([2], 48), 'OMEGA': ([3], 24), 'B2AB': ([1, 1], 48),
+          'WURTZ2': ([2, 2], 12), 'P1': ([2], 2), 'RHOM': ([1], 12), 'HONEY': ([2], 12), 'RECTM': ([2], 4), 'SQ2MM': ([1, 2], 8),
+          'AFM': ([2], 96), 'UUDD': ([4], 16)}
 
 
 def primitive(name):
     if name == 'AFM':   # B2-type antiferromagnet: one species, scalar spins +1 / -1 (not reducible because of the spins)
         return crystal.Crystal(np.eye(3), [np.zeros(3), 0.5 * np.ones(3)], ['U'], spins=[1, -1])
+    if name == 'UUDD':  # up-up-down-down chain: u -> u + c/4 maps positions and the first spin, but is not a symmetry
+        return crystal.Crystal(np.diag([1., 1.1, 2.3]), [np.array([0., 0., z]) for z in (0., 0.25, 0.5, 0.75)], ['U'],
+                               spins=[1, 1, -1, -1])
     return catalog.get(name)
 
 
@@ -51,7 +65,7 @@ def BOUNDS(tier):
             'rebases_3D': [U.tolist() for U in geom.REBASES3], 'rebases_2D': [U.tolist() for U in geom.REBASES2],
             'atom_orders': 're-base 0: reversal + all cyclic shifts per species list (+ the two remaining orders for lists of three '
                            'atoms, i.e. all 6); re-bases 1, 2: as generated, reversed, rotated by one',
-            'noise': '+-{:g} on one direct coordinate of one atom, every (atom, coordinate, sign), on re-base 0 / order 0'.format(NOISE) +
+            'noise': '{} on one direct coordinate of one atom, every (atom, coordinate, value), on re-base 0 / order id'.format(NOISES) +
                      ('' if tier == 'quick' else '; for det 5, 6 only the atoms of the first two supercell images (deterministic cut)')}
 
 
@@ -103,8 +117,8 @@ def describe(prim, S, ir, order, noise):
     basis = [reorder(b, order) for b in basis]
     if spins is not None: spins = [reorder(s, order) for s in spins]
     if noise is not None:
-        c, a, k, sg = noise
-        basis[c][a] = basis[c][a].copy(); basis[c][a][k] += sg * NOISE
+        c, a, k, ni = noise
+        basis[c][a] = basis[c][a].copy(); basis[c][a][k] += NOISES[ni]
     return L, basis, spins
 
 
@@ -147,18 +161,23 @@ def variants(prim, S, tier):
         lim = na if (tier == 'quick' or det <= 4) else min(na, 2 * len(atoms))
         for a in range(lim):
             for k in range(dim):
-                for sg in (1, -1):
-                    yield 0, 0, (c, a, k, sg)
+                for ni in range(len(NOISES)):
+                    yield 0, 'id', (c, a, k, ni)
 
 
 def evaluate(case):
     prim = primitive(case['name'])
     dim = prim.dim
     tier = case.get('tier', 'quick')
-    ref = {'counts': [len(b) for b in prim.basis], 'vpa': prim.volume / prim.N, 'nG': len(prim.G)}
+    counts, nG = EXPECT[case['name']]
+    ref = {'counts': counts, 'vpa': abs(np.linalg.det(prim.lattice)) * (prim.N / float(sum(counts))) / prim.N, 'nG': nG}
     H = geom.hnf_matrices(dim, case['det'])
     viols, seen, outcomes = [], set(), set()
     states = nontriv = 0
+    if [len(b) for b in prim.basis] != counts or len(prim.G) != nG:
+        viols.append({'oracle': 'primitive-description', 'key': case['name'],
+                      'detail': 'the primitive description itself is built with {} atoms per species and |G| = {}; expected {} and {}'.format(
+                          [len(b) for b in prim.basis], len(prim.G), counts, nG), 'case': dict(case)})
     if 'single' in case:
         s = case['single']
         todo = [(np.array(s['S']), [(s['ir'], s['order'], tuple(s['noise']) if s['noise'] else None)])]
@@ -172,7 +191,7 @@ def evaluate(case):
             fails, res = check_one(prim, ref, S, ir, order, noise)
             outcomes.add('{}:{}'.format(case['name'], res))
             for orc, det in fails:
-                nz = 'none' if noise is None else 'sp{}:atom{}:x{}:{}'.format(noise[0], noise[1], noise[2], '+' if noise[3] > 0 else '-')
+                nz = 'none' if noise is None else 'sp{}:atom{}:x{}:{:+g}'.format(noise[0], noise[1], noise[2], NOISES[noise[3]])
                 kind = re.sub(r'[-+]?\d+(\.\d+)?', '#', det)[:60]
                 key = '{}:{}:rebase{}:order={}:noise={}|{}'.format(case['name'], sname, ir, order, nz, kind if orc == 'exception' else '')
                 cls = (orc, kind)          # per case: the simplest input of every (oracle, kind of failure)
